@@ -57,7 +57,7 @@ var localNameRe = regexp.MustCompile(`\b(phi|var):[A-Za-z_][A-Za-z0-9_]*`)
 
 func init() {
 	register("C07",
-		"Memory-safety obligations over every non-test function of gbn and mailbox: BND (index/slice in bounds, proved from dominating length guards by interval analysis, or a listed site that relay data cannot reach), DIV (every integer divisor proved non-zero via field invariants that are themselves proved at every store and call site), INV (window fields sequenceBase/sequenceTop < s at every store; peer sequence numbers validated before use in window arithmetic; s=n+1 with n<=254 at every definition), ASSERT (every unchecked type assertion dominated by a successful test of that type, edge-sensitively for phis), MAKE (allocation sizes non-negative), PANIC (no explicit panic reachable). Not decided: panics inside dependencies (protojson, websocket, btcec, regexp) on hostile input; nil-pointer dereferences.",
+		"Memory-safety obligations over every non-test function of gbn and mailbox: ERRUSE (a pointer-like value returned together with an error is not dereferenced, passed on or re-read from the field it was stored in before that error was found nil), WIN-4 (as C01: the window base moves only in the four legal ways, the exact-ACK move only on a non-empty queue - otherwise resend dereferences an empty slot), BND (index/slice in bounds, proved from dominating length guards by interval analysis, or a listed site that relay data cannot reach), DIV (every integer divisor proved non-zero via field invariants that are themselves proved at every store and call site), INV (window fields sequenceBase/sequenceTop < s at every store; peer sequence numbers validated before use in window arithmetic; s=n+1 with n<=254 at every definition), ASSERT (every unchecked type assertion dominated by a successful test of that type, edge-sensitively for phis), MAKE (allocation sizes non-negative), PANIC (no explicit panic reachable). Not decided: panics inside dependencies (protojson, websocket, btcec, regexp) on hostile input; nil-pointer dereferences.",
 		[]string{
 			"dependencies (bytes.Buffer, encoding/binary, protojson, websocket, btcec, regexp) do not panic on the inputs they are given; binary.BigEndian.UintNN requires a slice of sufficient length and is checked as such",
 			"authenticated plaintext (output of a successful DecryptAndHash/Decrypt) is chosen by the peer that holds the keys, not by the relay",
@@ -130,6 +130,12 @@ func runC07(c *Checker) {
 	ws.proveContainsArgs("INV")
 	ws.proveImmutable("INV")
 	c.floor("INV", 8)
+	// the window base is what peer-chosen ACK/NACK numbers move: an illegal move (outside the four
+	// templates, or the exact-ACK move on an empty queue) makes size() cover slots that hold no
+	// packet, and resend then dereferences nil - the base-move rules (WIN-4, as C01) belong here too
+	ruleWIN4(c)
+	// a value obtained together with an error is not used before that error was found to be nil
+	ruleERRUSE(c)
 
 	nBND, nDIV := 0, 0
 	for _, fn := range w.Funcs {
@@ -897,4 +903,132 @@ func checkNilFuncFields(c *Checker) {
 	}
 	c.floor("NILFN", 4)
 	_ = n
+}
+
+// ruleERRUSE: for a call that returns (pointer-like value, error) and whose error IS tested
+// somewhere in the function, the value is not used (dereferenced, passed on, stored) on any path
+// that has not yet passed that test with a nil outcome. Using it earlier hands nil (or garbage)
+// to code that assumes a valid value: ParsePubKey failing on relay bytes followed by a use of
+// the nil key is a remote crash.
+func ruleERRUSE(c *Checker) {
+	w := c.w
+	n := 0
+	for _, fn := range w.Funcs {
+		if !w.inTargets(fn) {
+			continue
+		}
+		allInstrs(fn, func(in ssa.Instruction) {
+			call, ok := in.(*ssa.Call)
+			if !ok {
+				return
+			}
+			tup, ok := call.Type().(*types.Tuple)
+			if !ok || tup.Len() != 2 || !isErrorType(tup.At(1).Type()) || call.Referrers() == nil {
+				return
+			}
+			switch tup.At(0).Type().Underlying().(type) {
+			case *types.Pointer, *types.Interface, *types.Map:
+			default:
+				return
+			}
+			var val, errv *ssa.Extract
+			for _, r := range *call.Referrers() {
+				if ex, ok := r.(*ssa.Extract); ok {
+					if ex.Index == 0 {
+						val = ex
+					} else {
+						errv = ex
+					}
+				}
+			}
+			if val == nil || errv == nil || val.Referrers() == nil || errv.Referrers() == nil {
+				return
+			}
+			// only where the error is tested against nil at all (otherwise other rules apply)
+			tested := false
+			for _, r := range *errv.Referrers() {
+				if bo, ok := r.(*ssa.BinOp); ok && (bo.Op == token.EQL || bo.Op == token.NEQ) {
+					tested = true
+				}
+			}
+			if !tested {
+				return
+			}
+			okNil := func(b *ssa.BasicBlock) bool {
+				return hasFact(b, func(f Fact) bool { return factRel(f, isValue(errv), isNilConst) == "==" })
+			}
+			for _, r := range *val.Referrers() {
+				use, ok := r.(ssa.Instruction)
+				if !ok {
+					continue
+				}
+				switch u := r.(type) {
+				case *ssa.DebugRef:
+					continue
+				case *ssa.Return:
+					continue // handed to the caller together with the error
+				case *ssa.BinOp:
+					if u.Op == token.EQL || u.Op == token.NEQ {
+						continue // nil test of the value itself
+					}
+				case *ssa.Phi:
+					continue
+				case *ssa.Store:
+					// `x.f, err = call()`: storing is not yet a use; every load of that field that the store
+					// reaches before the error test has passed is
+					if fa, isFA := u.Addr.(*ssa.FieldAddr); isFA && !okNil(u.Block()) {
+						f := structFieldOf(fa)
+						for _, ld := range w.Loads(f) {
+							if ld.Parent() != fn || okNil(ld.Block()) || !reachableBeforeNilTest(u, ld, errv) {
+								continue
+							}
+							// a load on the error leg that is only returned is harmless
+							n++
+							c.fail("ERRUSE", fmt.Sprintf("%s|%s result used only after its error is nil|load of %s", fnName(fn), calleeLabel(call.Common()), w.fieldKey(f)), instrPos(ld),
+								"the result of "+calleeLabel(call.Common())+" was stored into "+f.Name()+" and that field is read again before the error was checked: on failure it holds nil (input chosen by the relay) and the use panics")
+						}
+					}
+					continue
+				}
+				n++
+				key := fmt.Sprintf("%s|%s result used only after its error is nil|%s", fnName(fn), calleeLabel(call.Common()), fmt.Sprintf("%T", use))
+				c.decide(okNil(use.Block()), "ERRUSE", key, instrPos(use), "the use is dominated by err == nil",
+					"the result of "+calleeLabel(call.Common())+" is used before its error was checked: on failure the value is nil/invalid (input chosen by the relay) and the use panics or acts on garbage")
+			}
+		})
+	}
+	if n < 10 {
+		c.fail("ERRUSE", "sites", token.NoPos, fmt.Sprintf("only %d uses of error-returning call results found", n))
+	}
+}
+
+// reachableBeforeNilTest: some path leads from `from` to `to` without crossing an edge on which
+// errv == nil has been established (i.e. before the error of that call was checked).
+func reachableBeforeNilTest(from, to ssa.Instruction, errv ssa.Value) bool {
+	if from.Parent() != to.Parent() {
+		return false
+	}
+	seen := map[*ssa.BasicBlock]bool{}
+	var walk func(b *ssa.BasicBlock, i int) bool
+	walk = func(b *ssa.BasicBlock, i int) bool {
+		for ; i < len(b.Instrs); i++ {
+			if b.Instrs[i] == to {
+				return true
+			}
+		}
+		for _, s := range b.Succs {
+			if seen[s] || !edgeFeasible(b, s) {
+				continue
+			}
+			if f, ok := edgeFact(b, s); ok && factRel(f, isValue(errv), isNilConst) == "==" {
+				continue
+			}
+			seen[s] = true
+			if walk(s, 0) {
+				return true
+			}
+		}
+		return false
+	}
+	return walk(from.Block(), instrIndex(from)+1)
 }
